@@ -20,8 +20,11 @@ import (
 	"hash/fnv"
 	"math/rand/v2"
 	"os"
+	"regexp"
+	"runtime"
 	"sort"
 	"strconv"
+	"strings"
 	"sync"
 	"testing"
 	"time"
@@ -72,6 +75,10 @@ type Run struct {
 	journal *os.File
 	out     string
 	cur     int
+	// scenario watchdog (wall clock): see watchdog()
+	curDesc  any
+	curStart time.Time
+	finished bool
 }
 
 func envInt(name string, def int) int {
@@ -109,7 +116,144 @@ func NewRun(t *testing.T, prop string) *Run {
 			r.journal = f
 		}
 	}
+	go r.watchdog()
 	return r
+}
+
+// watchdog: a scenario that makes no progress for minutes of wall-clock time. In the virtual-time
+// worlds that is what a deadlock or a busy loop in the proxy looks like: a goroutine waiting for a
+// sync.Mutex (or spinning) is not durably blocked, so the fake clock stops and the scenario never
+// ends. The firing of the watchdog decides nothing; two goroutine dumps ten seconds apart do:
+//   - a goroutine running proxy code is waiting for one of the proxy's locks in both dumps, and no
+//     goroutine is asleep inside one of the harness's own hook delays (which would point at the
+//     harness): the proxy is deadlocked - a violation, with the dump as witness;
+//   - the same goroutine is running or runnable inside proxy code in both dumps: the proxy is
+//     spinning - a violation;
+//   - anything else is inconclusive.
+//
+// Either way this process cannot continue (the scenario's goroutines never return): the partial
+// result is written and the process exits with status 98; the driver restarts the shard behind
+// the journalled scenario.
+func (r *Run) watchdog() {
+	limit := time.Duration(envInt("VERIF_SCENARIO_WALL_SECONDS", 300)) * time.Second
+	for {
+		time.Sleep(5 * time.Second)
+		r.mu.Lock()
+		start, done, cur := r.curStart, r.finished, r.cur
+		r.mu.Unlock()
+		if done {
+			return
+		}
+		if start.IsZero() || time.Since(start) < limit {
+			continue
+		}
+		d1 := allStacks()
+		time.Sleep(10 * time.Second)
+		r.mu.Lock()
+		moved := r.cur != cur || r.finished
+		desc := r.curDesc
+		r.mu.Unlock()
+		if moved {
+			continue // it did end after all
+		}
+		d2 := allStacks()
+		verdict, what := classifyStall(d1, d2)
+		trace := strings.Split(trunc(d2, 60000), "\n")
+		switch verdict {
+		case "deadlock", "spinning":
+			r.Violate("no-progress:"+verdict+":"+what, fmt.Sprintf("the scenario made no progress for %v of wall-clock time: the proxy is %s (%s); goroutine dump attached", limit, map[string]string{"deadlock": "deadlocked: goroutines in its code wait for its own locks", "spinning": "spinning: a goroutine stays runnable inside its code"}[verdict], what), desc, trace)
+		default:
+			r.Inconclusive("scenario %d made no progress for %v of wall-clock time; the goroutine dumps do not show a deadlock or a busy loop in the proxy (%s)", cur, limit, what)
+		}
+		r.mu.Lock()
+		res := r.Res
+		r.mu.Unlock()
+		if r.out != "" {
+			b, _ := json.MarshalIndent(res, "", " ")
+			os.WriteFile(r.out, b, 0o644)
+		}
+		fmt.Fprintf(os.Stderr, "VERIF-SCENARIO-WATCHDOG scenario=%d verdict=%s %s\n", cur, verdict, what)
+		os.Exit(98)
+	}
+}
+
+func allStacks() string {
+	buf := make([]byte, 4<<20)
+	return string(buf[:runtime.Stack(buf, true)])
+}
+
+var goroutineHead = regexp.MustCompile(`^goroutine (\d+)[^\[]*\[([^\],]*)`)
+
+// classifyStall compares two goroutine dumps of a stalled scenario (see watchdog).
+func classifyStall(d1, d2 string) (verdict, what string) {
+	type g struct{ state, fn string }
+	parse := func(d string) (map[string]g, bool) {
+		out := map[string]g{}
+		hookSleeper := false
+		for _, blk := range strings.Split(d, "\n\n") {
+			m := goroutineHead.FindStringSubmatch(blk)
+			if m == nil {
+				continue
+			}
+			if strings.Contains(blk, "verifharness.(*World).hook") && strings.Contains(blk, "time.Sleep") {
+				hookSleeper = true
+			}
+			if !strings.Contains(blk, "kamal-proxy/internal/server.") {
+				continue
+			}
+			fn := ""
+			for _, line := range strings.Split(blk, "\n") {
+				if strings.HasPrefix(line, "github.com/basecamp/kamal-proxy/internal/server.") {
+					fn = strings.TrimPrefix(strings.SplitN(line, "(0x", 2)[0], "github.com/basecamp/kamal-proxy/internal/server.")
+					if i := strings.LastIndex(fn, "("); i > 0 && strings.HasSuffix(fn, ")") && !strings.Contains(fn[i:], "*") {
+						fn = fn[:i]
+					}
+					break
+				}
+			}
+			out[m[1]] = g{state: m[2], fn: fn}
+		}
+		return out, hookSleeper
+	}
+	g1, hs1 := parse(d1)
+	g2, hs2 := parse(d2)
+	var locked, spinning []string
+	for id, a := range g2 {
+		b, ok := g1[id]
+		if !ok || a.fn != b.fn {
+			continue
+		}
+		lockWait := func(s string) bool {
+			return strings.Contains(s, "sync.Mutex") || strings.Contains(s, "sync.RWMutex") || strings.Contains(s, "semacquire")
+		}
+		switch {
+		case lockWait(a.state) && lockWait(b.state):
+			locked = append(locked, a.fn)
+		case (a.state == "running" || a.state == "runnable") && (b.state == "running" || b.state == "runnable"):
+			spinning = append(spinning, a.fn)
+		}
+	}
+	sort.Strings(locked)
+	sort.Strings(spinning)
+	switch {
+	case len(locked) > 0 && !hs1 && !hs2:
+		return "deadlock", "waiting in " + strings.Join(uniq(locked), ", ")
+	case len(spinning) > 0:
+		return "spinning", "in " + strings.Join(uniq(spinning), ", ")
+	case len(locked) > 0:
+		return "", "lock waits in " + strings.Join(uniq(locked), ", ") + " while a harness hook delay is pending"
+	}
+	return "", "no goroutine of the proxy waits for a lock or stays runnable"
+}
+
+func uniq(xs []string) []string {
+	var out []string
+	for i, x := range xs {
+		if i == 0 || x != xs[i-1] {
+			out = append(out, x)
+		}
+	}
+	return out
 }
 
 // NewScratchRun returns a run context whose findings are discarded: used to execute scenario
@@ -143,6 +287,8 @@ func (r *Run) Mine(i int, desc any) bool {
 	}
 	r.mu.Lock()
 	r.cur = i
+	r.curDesc = desc
+	r.curStart = time.Now()
 	r.Res.LastIndex = i
 	r.mu.Unlock()
 	if r.journal != nil {
@@ -206,6 +352,9 @@ func (r *Run) Violate(sig, what string, desc any, traceOrFn any) {
 
 // Finish writes the result file; in stand-alone mode it fails the test on violations.
 func (r *Run) Finish() {
+	r.mu.Lock()
+	r.finished = true
+	r.mu.Unlock()
 	if p := recover(); p != nil {
 		// the monitor itself panicked (e.g. synctest found blocked goroutines at scenario end):
 		// write the partial result without the done mark; the driver attributes the death to the
